@@ -23,9 +23,10 @@ Moved(ps) == SumSeq([i \in 1..Len(ps) |-> ps[i].amt])
 Ran(class) == class \in {"ok", "no-postings"}
 Crashed(class) == class = "hang" \/ (Len(class) >= 5 /\ SubSeq(class, 1, 5) = "panic")
 
-Failing(r) ==
+\* the laws and the comparison with what the source defines, for one observed outcome
+FailingOutcome(r, real) ==
     LET T(name, ok) == IF ok THEN {} ELSE {name}
-        real == r.real  exp == r.exp
+        exp == r.exp
         both == Ran(real.class) /\ Ran(exp.class)
         all == Accts(real.posts) \cup Accts(exp.posts)
     IN  T("C01_NeverOverdrawn", real.class = "ok" => NeverOverdrawn(real.posts, r.bal, r.sends))
@@ -37,10 +38,17 @@ Failing(r) ==
         \cup T("C03_Amount", (Ran(exp.class) /\ ~Crashed(real.class)) => (Ran(real.class) /\ Moved(real.posts) = Moved(exp.posts)))
         \cup T("C08_SameAsSource", ~Crashed(real.class) => (real.class = exp.class /\ real.posts = exp.posts))
         \cup T("C08_RefusedNotRun", exp.class = "compile-error" => real.class = "compile-error")
-        \cup T("C08_BigValues", r.scaledOk)
         \cup T("C12_NoPanicNoHang", ~Crashed(real.class))
         \cup T("C12_DefinedClass", Crashed(real.class) \/ real.class \in Defined)
-        \cup T("C12_Repeatable", r.againSame)
+
+\* the unscaled execution, plus every execution with all amounts multiplied by a factor around
+\* 2^61..2^70 whose outcome is not the unscaled one times the factor
+Failing(r) ==
+    FailingOutcome(r, r.real)
+    \cup UNION {FailingOutcome(r, r.scaledBad[i]) : i \in 1..Len(r.scaledBad)}
+    \cup (IF r.scaledOk THEN {} ELSE {"C08_BigValues"})
+    \cup (IF r.scaledInexact THEN {"C03_Amount"} ELSE {})
+    \cup (IF r.againSame THEN {} ELSE {"C12_Repeatable"})
 
 OInit == l = 0 /\ viol = {} /\ cnt = [n \in Names |-> 0] /\ TLCSet(1, {}) /\ TLCSet(2, [n \in Names |-> 0])
 
